@@ -51,7 +51,7 @@ def run(run):
     N = 1000000
     shapes = [(N,), (1000, 1000), (10, 10, 100, 100), (1, N)]
     sig_pows = [1e-3, 1.0, 1e3]
-    snrs = [-30.0, -20.0, -10.0, 0.0, 5.0, 10.0, 20.0, 30.0, 40.0] if not quick else [-20.0, 10.0, 40.0]
+    snrs = [-30.0, -20.0, -10.0, 0.0, 5.0, 10.0, 20.0, 30.0, 40.0] if not quick else [-20.0, 0.0, 10.0, 40.0]      # 0 dB included: a falsy parameter value
     ci = 0
 
     def signal(cplx, power, shape, fam="gaussian"):
